@@ -1337,6 +1337,12 @@ func (c *IPAMController) garbageCollectKnownLeaks() error {
 			a.markValid()
 			continue
 		}
+	}
+
+	// Only once every confirmed leak has had its final check (so that a resurrected address is visible
+	// whichever order the map is iterated in), decide per handle.
+	for _, a := range c.confirmedLeaks {
+		logc := log.WithFields(a.fields())
 
 		// Ensure that all of the IPs with this handle are in fact leaked.
 		if !c.handleTracker.isConfirmedLeak(a.handle) {
